@@ -184,11 +184,19 @@ pub const SLOT_NAMES: [&str; SLOTS] = ["a", "b", "c", "d", "e", "f", "g", "h"];
 #[cfg(not(kani))]
 pub fn realise(slot: usize, child: Child) -> Expression {
     if child.effects_answer && child.operand.known {
-        // `{ f() }`: known to be a table, evaluating it calls out
-        return TableExpression::new(vec![TableEntry::from_value(FunctionCall::from_name(
-            SLOT_NAMES[slot],
-        ))])
-        .into();
+        // known value, evaluating it calls out: `{ f() }` for a table, `{ f() } and <literal>` otherwise
+        let effectful_table: Expression =
+            TableExpression::new(vec![TableEntry::from_value(FunctionCall::from_name(SLOT_NAMES[slot]))]).into();
+        let literal: Expression = match child.operand.actual {
+            V::Table => return effectful_table,
+            V::Nil => Expression::nil(),
+            V::False => Expression::from(false),
+            V::True => Expression::from(true),
+            V::Number(n) => DecimalNumber::new(n).into(),
+            V::Str => StringExpression::from_value("s").into(),
+            V::Function => FunctionExpression::default().into(),
+        };
+        return BinaryExpression::new(BinaryOperator::And, effectful_table, literal).into();
     }
     if child.effects_answer {
         // the only leaf-like expression with effects: a call (its value is unknown)
@@ -210,10 +218,10 @@ pub fn realise(slot: usize, child: Child) -> Expression {
 
 /// Natively a child with effects is realised as a call, whose value the real evaluator does not
 /// know: such a child must have been drawn as unknown for the replay to be faithful.
-pub fn realisable(child: Child) -> bool {
-    // a table constructor with a call inside (`{ f() }`) is the one expression whose value the
-    // evaluator knows (a table) although evaluating it has effects
-    !(child.effects_answer && child.operand.known) || matches!(child.operand.actual, V::Table)
+pub fn realisable(_child: Child) -> bool {
+    // every combination is realisable: a value the evaluator knows although evaluating the
+    // expression calls out is `{ f() } and <literal>` (or `{ f() }` itself for a table)
+    true
 }
 
 fn slot_of(expression: &Expression) -> usize {
